@@ -117,7 +117,8 @@ def model (line : String) : String :=
       if i > s.length then "bad-case" else
       match xrefSectP s i with
       | (.ok v, c) =>
-        s!"ok {v.start} {v.stop} {c} subs={showSubs (v.val.map fun ss => (ss.val.start, ss.val.count))} ents={showEnts (sectEnts v.val)}"
+        let pos := v.val.flatMap fun ss => ss.val.ents.map (·.start)
+        s!"ok {v.start} {v.stop} {c} subs={showSubs (v.val.map fun ss => (ss.val.start, ss.val.count))} ents={showEnts (sectEnts v.val)} pos={if pos.isEmpty then "-" else ",".intercalate (pos.map toString)}"
       | (.err k, c) => s!"err {k} {c}"
       | (.panic p, _) => s!"panic {p}"
     | _, _ => "bad-case"
@@ -218,7 +219,45 @@ def encMutated (subs : List XrefSpec.TSub) (k : Nat) (chunk : Bytes) : Option (B
       n := n + 1
   if found then some (pre, post) else none
 
-def judgeTab (hex pos : String) (toks : List String) (impl : String) : String :=
+def parseEntStr (t : String) : Option Ent :=
+  match t.splitOn ":" with
+  | [o, g, "f", x] => match o.toNat?, g.toNat?, x.toNat? with
+    | some o, some g, some x => some ⟨o, g, .free x⟩
+    | _, _, _ => none
+  | [o, g, "n", x] => match o.toNat?, g.toNat?, x.toNat? with
+    | some o, some g, some x => some ⟨o, g, .inUse x⟩
+    | _, _, _ => none
+  | _ => none
+
+def parseList {α : Type} (f : String → Option α) (body : String) : Option (List α) :=
+  if body == "-" then some [] else (body.splitOn ",").mapM f
+
+def parseSubStr (t : String) : Option (Nat × Nat) :=
+  match t.splitOn "+" with
+  | [a, b] => match a.toNat?, b.toNat? with
+    | some a, some b => some (a, b)
+    | _, _ => none
+  | _ => none
+
+/-- Whatever the case is: an implementation that ACCEPTS a table must have consumed only what the
+    spec reads back from the bytes - `xref`, the claimed headers, and at each claimed entry offset
+    the fixed 20-byte form denoting exactly the claimed entry (generation ≤ 65535, type f|n, one of
+    the three terminators, consecutive numbering).  Computed from `XrefSpec` alone. -/
+def judgeAccepted (hex : String) (impl : String) : String :=
+  match words impl, bytesOfHex hex with
+  | ["ok", st, _, _, subs, ents, pos], some s =>
+    match st.toNat?, parseList parseSubStr ((subs.drop 5).toString), parseList parseEntStr ((ents.drop 5).toString),
+          parseList String.toNat? ((pos.drop 4).toString) with
+    | some st, some subs, some ents, some pos =>
+      if ents.length != pos.length then "bad accepts-malformed-entry entry/offset lists differ in length"
+      else match XrefSpec.checkAccepted s st subs (ents.zip pos) with
+        | none => "ok"
+        | some msg => s!"bad accepts-malformed-entry {msg}"
+    | _, _, _, _ => "bad output unparsable ok-line"
+  | "ok" :: _, _ => "bad output unparsable ok-line"
+  | _, _ => "skip"
+
+def judgeTabDesc (hex pos : String) (toks : List String) (impl : String) : String :=
   match toks with
   | "L" :: toks =>
     match parseDesc toks, bytesOfHex hex with
@@ -233,7 +272,7 @@ def judgeTab (hex pos : String) (toks : List String) (impl : String) : String :=
         let exp := showEnts (XrefSpec.tableEnts d.subs)
         let expSubs := showSubs (d.subs.map fun t => (t.start, t.ents.length))
         match iw with
-        | ["ok", st, en, cu, subs, ents] =>
+        | ["ok", st, en, cu, subs, ents, _] =>
           if st != "0" then s!"bad value start={st}"
           else if subs != s!"subs={expSubs}" then s!"bad value expected subs={expSubs}"
           else if ents != s!"ents={exp}" then s!"bad value expected ents={exp}"
@@ -258,6 +297,16 @@ def judgeTab (hex pos : String) (toks : List String) (impl : String) : String :=
             | _ => s!"bad accept-malformed entry {k} at offset {pre.length} is not in the 20-byte form"
     | _, _ => "skip"
   | _ => "skip"
+
+/-- description-based verdict first (it also knows what SHOULD have been accepted); an accepted
+    table is in every case additionally re-read from the bytes -/
+def judgeTab (hex pos : String) (toks : List String) (impl : String) : String :=
+  let v := judgeTabDesc hex pos toks impl
+  if v.startsWith "bad" then v
+  else
+    let a := judgeAccepted hex impl
+    if a.startsWith "bad" then a
+    else if v == "skip" then a else v
 
 def judgeStream (d : Dict) (content : Bytes) (base : Nat) (impl : String) : String :=
   match XrefSpec.streamMeaning d content with
@@ -364,6 +413,9 @@ def corruptions (e : XrefSpec.TEnt) (r : Rng) : List (Bytes × Bool) × Rng :=
      (b.take 18 ++ [10, 10], false), (b.take 18 ++ [32, 32], false), (b.take 18 ++ [13, 13], false),
      (b.take 18 ++ [10, 13], false), (b.take 18 ++ [10], false), (b.take 19, false),
      (b.set 10 9, false), (b.set 16 0, false),
+     (b.set 11 43, false), (b.set 11 45, false), (b.set 11 32, false),   -- generation field +dddd / -dddd / SP dddd
+     (b.set 0 43, false), (b.set 0 45, false), (b.set 0 32, false),      -- offset field with a sign / blank
+     (b.set 15 32, false), (b.set 9 32, false),                           -- trailing blank in a number field
      (XrefSpec.padDec 9 (e.info % 10 ^ 9) ++ b.drop 10, false),       -- 9-digit offset
      (XrefSpec.padDec 11 e.info ++ b.drop 10, false),                 -- 11-digit offset
      (b.take cutAt, true) ], r)                                       -- table truncated inside the entry
